@@ -219,7 +219,8 @@ def shard(items, k):
 
 
 def script_hash(hist):
-    key = hist.get("ops") if "ops" in hist else {k: v for k, v in hist.items() if k != "id"}
+    # distinct = distinct script under a distinct configuration (version, buffer size, backend, fault positions)
+    key = {k: v for k, v in hist.items() if k not in ("id", "heavy", "img", "reopen")}
     return hashlib.sha1(json.dumps(key, sort_keys=True).encode()).hexdigest()
 
 
